@@ -1,8 +1,10 @@
 (* C26 — Node transport frames and RPC responses are correctly correlated.
    Only statements, each closed by [exact] of a lemma from Proof/*.v.
-   Part (a): wire header codec, ReadFrame, WriteFrames (Model/Wire.v). *)
-From WK Require Import Base.Base Base.Bytes Gen.Consts_C26 Model.Wire Model.C26Case.
-From WK Require Import Proof.Wire Proof.Wire_monitor.
+   Part (a): wire header codec, ReadFrame, WriteFrames (Model/Wire.v).
+   Part (b): the RPC pending table and Conn.Call correlation (Model/Pending.v):
+   theorems over ALL interleavings of the table's atomic steps. *)
+From WK Require Import Base.Base Base.Bytes Gen.Consts_C26 Model.Wire Model.Pending Model.C26Case.
+From WK Require Import Proof.Wire Proof.Wire_monitor Proof.Pending Proof.Pending_monitor.
 Open Scope N_scope.
 
 (* ---- (a) every frame header round-trips ---------------------------------- *)
@@ -97,6 +99,101 @@ Proof.
   - rewrite mon_write_model by assumption. reflexivity.
 Qed.
 Print Assumptions c26_wire_model_satisfies_monitor.
+
+(* ---- (b) each call receives exactly its own response or an error -------------------
+
+   [trun cap ginit tr = Some g]: tr is any interleaving of the table's atomic steps
+   (insert under the shard lock, Complete's lookup+delete, FailAll's close and
+   per-entry sweep, every individual trySend, every receive) performed by
+   well-formed clients: request ids are never reused and every call registers its
+   own buffered channel (Conn.Call: atomic counter + make(chan, 1)). *)
+
+(* never another call's response: a message completed for request id [id] that
+   channel [c] received was registered by the call that owns [c], and [c] has no
+   other owner *)
+Theorem c26_exactly_own : forall cap tr g c m id,
+  trun cap ginit tr = Some g -> In (c, m) (g_recvd g) -> m_tag m = Some id ->
+  In (c, id) (g_owner g) /\ forall id', In (c, id') (g_owner g) -> id' = id.
+Proof. exact own_response. Qed.
+Print Assumptions c26_exactly_own.
+
+(* a response completed for [id] is never in flight to, buffered in, or received
+   from any channel but the one [id] was registered with *)
+Theorem c26_response_goes_to_owner : forall cap tr g c c' m id,
+  trun cap ginit tr = Some g -> In (c, m) (msgs g) -> m_tag m = Some id ->
+  In (c', id) (g_owner g) -> c = c'.
+Proof. exact response_goes_to_owner. Qed.
+Print Assumptions c26_response_goes_to_owner.
+
+(* a caller receives at most one value (response or error) *)
+Theorem c26_at_most_one : forall cap tr g c,
+  trun cap ginit tr = Some g -> count_chan c (g_recvd g) <= 1.
+Proof. exact at_most_one. Qed.
+Print Assumptions c26_at_most_one.
+
+(* the non-blocking send never finds the caller's buffer full: no response is
+   dropped although trySend may drop *)
+Theorem c26_no_drop : forall cap tr g, trun cap ginit tr = Some g -> g_drops g = 0.
+Proof. exact no_drop. Qed.
+Print Assumptions c26_no_drop.
+
+(* FailAll empties and closes the table; afterwards no method registers anything *)
+Theorem c26_no_leak_after_failall : forall caps e s,
+  let s1 := fail_all (cap_of caps) e s in
+  ps_entries s1 = [] /\ ps_closed s1 = true
+  /\ forall ops, let final := fold_left (fun st o => fst (pstep caps st o)) ops s1 in
+                 ps_entries final = [] /\ ps_closed final = true.
+Proof.
+  intros caps e s. cbv zeta. destruct (fail_all_empties (cap_of caps) e s) as [E C].
+  split; [exact E|]. split; [exact C|].
+  intro ops. revert E C. generalize (fail_all (cap_of caps) e s).
+  induction ops as [|o ops IH]; intros s1 E C; cbn [fold_left]; [split; assumption|].
+  destruct (closed_stays_empty caps s1 o C E) as [C' E']. exact (IH _ E' C').
+Qed.
+Print Assumptions c26_no_leak_after_failall.
+
+(* the methods used for the sequential correspondence are the step sequences a
+   single uninterrupted call performs *)
+Theorem c26_complete_is_remove_then_send : forall cap id p e g,
+  ps_inflight (g_st g) = [] ->
+  exists g', trun cap g [TRemove id p e; TSend 0] = Some g'
+             /\ g_st g' = fst (complete cap id p e (g_st g)).
+Proof. exact complete_as_steps. Qed.
+Print Assumptions c26_complete_is_remove_then_send.
+
+Theorem c26_store_is_insert_or_fail : forall cap id c g,
+  ps_inflight (g_st g) = [] -> id_used id g = false -> chan_used c g = false -> 1 <= cap c ->
+  exists g', trun cap g (if ps_closed (g_st g) then [TStoreClosed c; TSend 0] else [TInsert id c]) = Some g'
+             /\ g_st g' = store cap id c (g_st g).
+Proof. exact store_as_steps. Qed.
+Print Assumptions c26_store_is_insert_or_fail.
+
+(* the table monitor accepts every sequential history of the model *)
+Theorem c26_pending_model_satisfies_monitor : forall nshards caps ops,
+  C26_monitor (C26Pend nshards caps (combine ops (prun caps pinit ops))
+                       (shard_count nshards) []) = 0.
+Proof. intros. cbn [C26_monitor]. rewrite mon_pend_model. reflexivity. Qed.
+Print Assumptions c26_pending_model_satisfies_monitor.
+
+(* stress runs: the monitor is the acceptance predicate itself *)
+Theorem c26_stress_monitor_is_acceptance : forall calls,
+  C26_mismatch (C26Stress calls) = false <-> C26_monitor (C26Stress calls) = 0.
+Proof.
+  intro calls. cbn [C26_mismatch C26_monitor]. destruct (forallb stress_allowed calls); cbn; split; intro H; try reflexivity; discriminate.
+Qed.
+Print Assumptions c26_stress_monitor_is_acceptance.
+
+(* non-vacuity of (b): a concrete interleaving where a duplicate response and a
+   late response race with a cancellation *)
+Example c26_example_interleaving :
+  match trun (fun _ => 1) ginit
+          [TInsert 1 10; TInsert 2 20; TRemove 2 (hx "62") 0; TRemove 1 (hx "61") 0;
+           TRemove 2 (hx "ff") 0; TSend 1; TDelete 1; TSend 0; TRecv 20; TRecv 10; TRecv 20] with
+  | Some g => g_recvd g = [(10, Msg (Some 1) (hx "61") 0); (20, Msg (Some 2) (hx "62") 0)]
+              /\ g_drops g = 0 /\ ps_entries (g_st g) = []
+  | None => False
+  end.
+Proof. vm_compute. repeat split; reflexivity. Qed.
 
 (* non-vacuity *)
 Example c26_example_header :
